@@ -89,7 +89,7 @@ fn c13q_wait_status_of_unknown_job() {
 /// the table (the table is sparse: job numbers of removed jobs leave gaps)
 #[kani::proof]
 #[kani::unwind(5)]
-fn c13q_wait_all_with_gap_below_running_job() {
+fn c13t_wait_all_with_gap_below_running_job() {
     let mut jobs = JobList::default();
     let first = jobs.insert(Job::new(Pid(10)));
     let second = jobs.insert(Job::new(Pid(11)));
@@ -103,7 +103,7 @@ fn c13q_wait_all_with_gap_below_running_job() {
 
 #[kani::proof]
 #[kani::unwind(5)]
-fn c13q_wait_all_finished_or_none() {
+fn c13t_wait_all_finished_or_none() {
     let mut jobs = JobList::default();
     let job_control: bool = kani::any();
     let r = any_job_is_running(if job_control { On } else { Off })(&mut jobs);
